@@ -75,15 +75,26 @@ def frag_mod_name(frag):
     return "verif_kani_" + re.sub(r"[^a-z0-9_]", "_", base[:-3].lower())
 
 
+def weave_roots():
+    """/verif/weave plus an optional work-in-progress root (VERIF_WIP=/verif/wip/<name>) with the same layout:
+    <root>/append/<repo file>/<frag>.rs, <root>/inject/*.json, <root>/specs/*.rs"""
+    roots = [WEAVE]
+    wip = os.environ.get("VERIF_WIP")
+    if wip:
+        roots.append(wip)
+    return roots
+
+
 def list_fragments():
-    root = os.path.join(WEAVE, "append")
     out = []
-    for d, _, files in os.walk(root):
-        for f in sorted(files):
-            if f.endswith(".rs"):
-                frag = os.path.join(d, f)
-                target = os.path.relpath(d, root)  # directory path == repo-relative target file
-                out.append((frag, target))
+    for r in weave_roots():
+        root = os.path.join(r, "append")
+        for d, _, files in os.walk(root):
+            for f in sorted(files):
+                if f.endswith(".rs"):
+                    frag = os.path.join(d, f)
+                    target = os.path.relpath(d, root)  # directory path == repo-relative target file
+                    out.append((frag, target))
     return sorted(out)
 
 
@@ -150,8 +161,12 @@ def weave(src, only_targets=None):
     """Append harness modules and inject contract attributes. Returns a record of what was woven."""
     record = {"appended": [], "injected": []}
     # 1. injections first (line anchors refer to pristine text)
-    inj_path = os.path.join(WEAVE, "inject.json")
-    if os.path.exists(inj_path):
+    inj_files = []
+    for r in weave_roots():
+        d = os.path.join(r, "inject")
+        if os.path.isdir(d):
+            inj_files += sorted(os.path.join(d, f) for f in os.listdir(d) if f.endswith(".json"))
+    for inj_path in inj_files:
         for inj in json.load(open(inj_path)):
             path = os.path.join(src, inj["file"])
             if not os.path.exists(path):
@@ -189,16 +204,19 @@ def weave(src, only_targets=None):
                 record["appended"].append({"file": target, "fragment": os.path.relpath(frag, VERIF),
                                            "sha256": hashlib.sha256(body.encode()).hexdigest()[:16]})
     # 3. spec functions into lib.rs
-    spec_dir = os.path.join(VERIF, "specs")
-    specs = sorted(f for f in os.listdir(spec_dir) if f.endswith(".rs")) if os.path.isdir(spec_dir) else []
+    spec_dirs = [os.path.join(VERIF, "specs")] + [os.path.join(r, "specs") for r in weave_roots()[1:]]
+    specs = []
+    for spec_dir in spec_dirs:
+        if os.path.isdir(spec_dir):
+            specs += sorted(os.path.join(spec_dir, f) for f in os.listdir(spec_dir) if f.endswith(".rs"))
     if specs:
         with open(os.path.join(src, "dnp3", "src", "lib.rs"), "a") as f:
             f.write("\n\n#[cfg(kani)]\n#[allow(unused_imports, dead_code, unused_variables, clippy::all)]\npub(crate) mod verif_spec {\n")
             for s in specs:
-                f.write("// ---- %s\n" % s)
-                f.write(open(os.path.join(spec_dir, s)).read())
+                f.write("// ---- %s\n" % os.path.basename(s))
+                f.write(open(s).read())
             f.write("\n}\n")
-        record["specs"] = specs
+        record["specs"] = [os.path.basename(s) for s in specs]
     return record
 
 
